@@ -10,28 +10,36 @@ EXTENDS DataX, TLC
 CONSTANT MaxLen, BlobLens, KSet
 
 \* W8 of small magnitudes and of +-2^k boundaries
+\* Every value built here ends in "\o <<>>": Choices is a constant that TLC evaluates once and all workers share, and
+\* what a function constructor -- above all one under EXCEPT -- yields is a LAZY value inside it (TLC forces only what
+\* sorting the enclosing set happens to compare: never the elements of the arrays).  A lazy function with pending
+\* EXCEPTs is not safe to share: TLC publishes its table before the EXCEPTs are applied (FcnLambdaValue.toFcnRcd), so a
+\* worker that applies it while another forces it reads the bytes WITHOUT the EXCEPT -- observed as a write that appended
+\* ...,254 for the value -1 (about one run in 100 with 4 workers, "Invariant ReadBack is violated" followed by
+\* "Failed to recover the initial state from its fingerprint").  Concatenation makes a plain tuple of integers while the
+\* constants are still being processed by one thread.
 P2(k) == \* 2^k as W8, k in 0..62
-  [i \in 1..8 |-> IF i = 8 - (k \div 8) THEN 2 ^ (k % 8) ELSE 0]
+  [i \in 1..8 |-> IF i = 8 - (k \div 8) THEN 2 ^ (k % 8) ELSE 0] \o <<>>
 \* two's complement negation of a W8
 Neg(v) == LET inv == [i \in 1..8 |-> 255 - v[i]]
               RECURSIVE Inc(_, _)
               Inc(s, i) == IF i = 0 THEN s
                            ELSE IF s[i] = 255 THEN Inc([s EXCEPT ![i] = 0], i - 1)
                            ELSE [s EXCEPT ![i] = s[i] + 1]
-          IN Inc(inv, 8)
+          IN Inc(inv, 8) \o <<>>
 Dec1(v) == Neg(LET n == Neg(v) IN
                  LET RECURSIVE Inc(_, _)
                      Inc(s, i) == IF i = 0 THEN s
                                   ELSE IF s[i] = 255 THEN Inc([s EXCEPT ![i] = 0], i - 1)
                                   ELSE [s EXCEPT ![i] = s[i] + 1]
-                 IN Inc(n, 8))
+                 IN Inc(n, 8) \o <<>>)
 Ks == KSet      \* the class boundaries explored: a subset of {7, 15, 23, 31, 39, 63}
-Boundary == {Zeros(8), P2(0), Neg(P2(0))}
+Boundary == {Zeros(8) \o <<>>, P2(0), Neg(P2(0))}
               \cup {P2(k) : k \in Ks \ {63}} \cup {Dec1(P2(k)) : k \in Ks \ {63}}     \* 2^k, 2^k - 1
               \cup {Neg(P2(k)) : k \in Ks \ {63}} \cup {Dec1(Neg(P2(k))) : k \in Ks \ {63}} \* -2^k, -2^k - 1
               \cup {Fill(8, 255) \o <<>>, <<127,255,255,255,255,255,255,255>>, <<128,0,0,0,0,0,0,0>>}
 
-Payload(n) == [i \in 1..n |-> (i * 7) % 256]
+Payload(n) == [i \in 1..n |-> (i * 7) % 256] \o <<>>
 
 Choices ==
        {<<"Bool", b>> : b \in BOOLEAN}
